@@ -31,6 +31,7 @@
 -/
 import ICal.Lemmas.Codec
 import ICal.Lemmas.Bodies
+import ICal.Lemmas.BodiesDec
 namespace ICal.C03
 open ICal.Codec
 
@@ -416,6 +417,63 @@ theorem body_date_rt (d : PDate) (h : d.valid = true) :
   rw [body_vDate_to_ical d]
   exact ⟨date_rt d h, date_grammar d h⟩
 
+/-! ## Regenerated DECODER bodies = hand model
+
+  `ICal.Gen.BodiesDec.*` are written by tools/py2lean.py from the current source of the `from_ical`
+  methods (slicing, `int()`, `date/time/datetime(...)`, `timedelta(...)`, `try .. except: raise
+  ValueError`, early returns).  A function that can raise is `Py T = Except Exc T`; `Bodies.liftRes f`
+  carries a result of the hand model over (`ok v` to `ok (f v)`, ValueError to ValueError).  `int(str)`,
+  `validDate`, `okTime` are the definitions of the hand model itself (ICal/Model/PyRTDec.lean reuses
+  them), so these theorems tie the control flow, the slice bounds, the range checks and the error
+  handling of each decoder.  Parameters: `vDatetime.from_ical` is specialised to `timezone=None` and
+  takes `tzp.localize_utc` as a function parameter (the model's `utc` flag = "it was applied");
+  `vDuration.from_ical` takes the match object of `DURATION_REGEX.match(t)`, for which
+  `PyRT.durGroups` is the hand model (same scanner as `durFrom`, returning the group texts; compared
+  with the real `re` module every run). -/
+
+theorem body_vDate_from_ical (t : Str) :
+    Gen.BodiesDec.vDate_from_ical t = Bodies.liftRes Bodies.dateOf (vDateFrom t) :=
+  Bodies.vDate_from_ical_eq t
+
+theorem body_vTime_from_ical (t : Str) :
+    Gen.BodiesDec.vTime_from_ical t = Bodies.liftRes Bodies.timeOf (vTimeFrom t) :=
+  Bodies.vTime_from_ical_eq t
+
+open PyRT in
+theorem body_vDatetime_from_ical (t : Str) (localizeUtc : PyDateTime → PyDateTime) :
+    Gen.BodiesDec.vDatetime_from_ical t localizeUtc =
+      Bodies.liftRes (fun p => if p.utc then localizeUtc (Bodies.dateTimeOf { p with utc := false })
+                               else Bodies.dateTimeOf p) (vDatetimeFrom t) :=
+  Bodies.vDatetime_from_ical_eq t localizeUtc
+
+theorem body_vUTCOffset_from_ical (t : Str) :
+    Gen.BodiesDec.vUTCOffset_from_ical t = Bodies.liftRes PyRT.TD.ofSeconds (offFrom t) :=
+  Bodies.vUTCOffset_from_ical_eq t
+
+theorem body_vDuration_from_ical (t : Str) :
+    Gen.BodiesDec.vDuration_from_ical t (PyRT.durGroups t) = Bodies.liftRes PyRT.TD.ofSeconds (durFromE t) :=
+  Bodies.vDuration_from_ical_eq t
+
+theorem body_vInt_from_ical (t : Str) : Gen.BodiesDec.vInt_from_ical t = Bodies.liftRes id (intFrom t) :=
+  Bodies.vInt_from_ical_eq t
+
+/-- both directions translated: the regenerated decoder inverts the regenerated encoder -/
+theorem body_date_decode_encode (d : PDate) (h : d.valid = true) :
+    Gen.BodiesDec.vDate_from_ical (Gen.Bodies.vDate_to_ical (Bodies.dateOf d)) = .ok (Bodies.dateOf d) := by
+  rw [body_vDate_to_ical, body_vDate_from_ical, date_rt d h]; rfl
+
+theorem body_duration_decode_encode (s : Int) :
+    Gen.BodiesDec.vDuration_from_ical (Gen.Bodies.vDuration_to_ical (PyRT.TD.ofSeconds s))
+        (PyRT.durGroups (Gen.Bodies.vDuration_to_ical (PyRT.TD.ofSeconds s))) = .ok (PyRT.TD.ofSeconds s) := by
+  rw [(body_timedelta_domain s).2.2.1, body_vDuration_from_ical]
+  have h := duration_rt s
+  simp only [durFromE, h]; rfl
+
+theorem body_utcoffset_decode_encode (s : Int) (hb : s.natAbs < 86400) :
+    Gen.BodiesDec.vUTCOffset_from_ical (Gen.Bodies.vUTCOffset_to_ical (PyRT.TD.ofSeconds s)) =
+      .ok (PyRT.TD.ofSeconds s) := by
+  rw [(body_timedelta_domain s).2.2.2, body_vUTCOffset_from_ical, utcoffset_rt s hb]; rfl
+
 /-! ## Non-vacuity: the hypotheses are satisfiable, on boundary values and on the quirks -/
 
 example : (⟨2024, 2, 29⟩ : PDate).valid = true := by decide
@@ -456,5 +514,11 @@ example : Gen.Bodies.vDatetime_to_ical ⟨2024, 2, 29, 23, 59, 59⟩ (some Bodie
 example : PyRT.fmtZ 2 (-5) = "-5".toList ∧ PyRT.fmtZ 3 (-5) = "-05".toList ∧ PyRT.fmtZ 2 123 = "123".toList := by decide
 example : PyRT.floorDiv (-7) 2 = -4 ∧ PyRT.pyMod (-7) 2 = 1 ∧ PyRT.pyMod 7 (-2) = -1 := by decide
 example : PyRT.TD.neg ⟨0, 1⟩ = ⟨-1, 86399⟩ := by decide
+example : Gen.BodiesDec.vDate_from_ical "20240229".toList = .ok ⟨2024, 2, 29⟩ := by decide
+example : Gen.BodiesDec.vDate_from_ical "20230229".toList = .error .valueError := by decide
+example : Gen.BodiesDec.vUTCOffset_from_ical "+2400".toList = .error .valueError := by decide
+example : Gen.BodiesDec.vUTCOffset_from_ical "-0130".toList = .ok ⟨-1, 81000⟩ := by decide
+example : (PyRT.durGroups "-P1DT2H".toList).map (fun g => (g.1, g.2.2.1, g.2.2.2.1)) =
+    some (some ['-'], some ['1'], some ['2']) := by decide
 
 end ICal.C03
